@@ -2,6 +2,7 @@ import IoraModel.Lemmas.Xml
 import IoraModel.Lemmas.XmlEntities
 import IoraModel.Lemmas.XmlDom
 import IoraModel.Lemmas.XmlRender
+import IoraModel.Lemmas.XmlTransfer
 /-!
 # C14 — The XML parser accepts only balanced documents and reports them faithfully
 
@@ -24,13 +25,13 @@ token list is well nested — every start tag is closed by an end tag with a byt
 grammar `ε | other·N | start·N·end·N`, stated without any stack). -/
 theorem X1_balanced (o : Options) (bs : Bytes) (ts : List Token) (t : Token) (s : St)
     (h : tokens o bs = (ts, .accepted t s)) : Nest bs ts := by
-  have := (tokens_ok o bs).stack
+  have := (tokens_ok' o bs).stack
   rw [h] at this
   exact sm_nest bs ts this
 
 /-- non-vacuity: `<a>x</a>` is accepted with the tokens Start, Text, End; `<a></b>` is not accepted -/
 example : (tokens {} docAXA).1.map (·.kind) = [.startElement, .text, .endElement] ∧
-    (match (tokens {} docAXA).2 with | .accepted _ _ => true | _ => false) = true := by decide
+    (match (tokens {} docAXA).2 with | .accepted _ _ => true | _ => false) = true := by decide +kernel
 example : (match (tokens {} docMismatch).2 with | .error .mismatch _ _ => true | _ => false) = true := by decide
 
 /-- **X1 (DOM).** `DomBuilder::build` run on the tokenizer's own output never takes its "unbalanced end element" exit and never
@@ -41,7 +42,7 @@ theorem X1_dom_never_unbalanced (o : Options) (bs : Bytes) :
     | .doc _ => ∃ t s, (tokens o bs).2 = .accepted t s
     | .null e _ _ _ => e.isDom = false
     | .bad _ => False := by
-  have hok := tokens_ok o bs
+  have hok := tokens_ok' o bs
   unfold domBuild domOf
   cases hout : (tokens o bs).2 with
   | accepted t s =>
@@ -84,7 +85,7 @@ theorem X2_slices_in_bounds (o : Options) (bs : Bytes) :
      | .accepted t _ => t.offset = bs.length
      | .error _ c _ => c.pos ≤ bs.length
      | .bad _ => False) := by
-  have hok := tokens_ok o bs
+  have hok := tokens_ok' o bs
   refine ⟨hok.below, ?_⟩
   have hf := hok.final
   cases hout : (tokens o bs).2 with
@@ -92,21 +93,41 @@ theorem X2_slices_in_bounds (o : Options) (bs : Bytes) :
   | error e c s => rw [hout] at hf; exact hf.1
   | bad b => exact (hok.notBad b hout).elim
 
-/-- **X2 (reads).** The model reads the input only through the cursor; a read with nothing left is the outcome `bad oob`, an
-exhausted loop budget `bad fuel`.  Neither happens: not in a single `next()` from any state whose cursor is consistent with the
-input, and not in a whole run. -/
+/-- **X2 (the reads are indexed reads of the input, the guards comparisons with its size).** In a state whose cursor is
+consistent with the input `bs`, `peek()` is `bs[_cur]?`, `_input[_cur + i]` is `bs[_cur + i]?` — `none`, which every caller turns
+into `bad oob`, exactly when the index is `≥ size` — and the guards `eof()` and `_cur + i >= size` are those comparisons. -/
+theorem X2_reads_are_indexed (bs : Bytes) (c : Cur) (h : c.At bs) (i : Nat) :
+    c.peek = bs[c.pos]? ∧ c.at i = bs[c.pos + i]? ∧ (c.at i = none ↔ bs.length ≤ c.pos + i) ∧
+    (c.eof = true ↔ bs.length ≤ c.pos) ∧ (c.beyond i = true ↔ bs.length ≤ c.pos + i) := by
+  refine ⟨?_, Cur.at_eq_get h i, ?_, Cur.eof_iff h, Cur.beyond_iff h i⟩
+  · rw [Cur.peek_eq_at, Cur.at_eq_get h 0]; simp
+  · rw [Cur.at_eq_get h i]; simp
+
+/-- **X2 (no out-of-range read).** The tokenizer of `Model/Xml.lean` performs every read the C++ performs — `peek()`, `advance()`,
+`_input[_cur + i]`, `_input[pos]` — as a partial function, under exactly the guards the C++ has (`Gen.Xml.readSites`, regenerated
+from the header, lists each read with its guard; `gen_conformance` ties it to the table the model implements); an unguarded or
+wrongly guarded read at the end of the input yields `bad oob`, an exhausted loop budget `bad fuel`, the `sv.empty()` re-entry of
+`readText` `bad dead`.  None of them happens: not in a single `next()` from any state whose cursor is consistent with the input
+(arbitrary bytes, arbitrary position, all option values), and not in a whole run.  (The proof goes through function-by-function
+equations between the explicit loops and their closed forms, `Lemmas/XmlExplicit.lean`; dropping a guard from the model breaks
+the corresponding equation.) -/
 theorem X2_no_oob_read (o : Options) (bs : Bytes) :
     (∀ s : St, s.cur.At bs → ∀ b, next o s ≠ .bad b) ∧ (∀ b, (tokens o bs).2 ≠ .bad b) := by
-  refine ⟨?_, (tokens_ok o bs).notBad⟩
+  refine ⟨?_, (tokens_ok' o bs).notBad⟩
   intro s hat b h
-  have := next_sat bs o s hat
+  have := next_sat' bs o s hat
   rw [h] at this
   exact this
+
+/-- the outcome is not vacuous: at the end of the input the read primitives do answer "out of range" (`advance()` on an exhausted
+cursor is `bad oob`, `peek()` and `_input[_cur + 0]` are `none`) — it is the guards that keep `next` away from them -/
+example : (match advR 1 ⟨1, 1, 2, []⟩ with | .bad .oob => true | _ => false) = true ∧
+    (⟨1, 1, 2, []⟩ : Cur).peek = none ∧ (⟨1, 1, 2, []⟩ : Cur).at 0 = none := by decide
 
 /-- **X3 (progress).** Every call of `next()` that returns a token has moved the cursor strictly forward, and not past the end. -/
 theorem X3_next_advances (o : Options) (bs : Bytes) (s s' : St) (t : Token) (hat : s.cur.At bs)
     (h : next o s = .tok t s') : s.cur.pos < s'.cur.pos ∧ s'.cur.pos ≤ bs.length ∧ s'.cur.At bs := by
-  have := next_sat bs o s hat
+  have := next_sat' bs o s hat
   rw [h] at this
   have hat' := Cur.Reach.at hat this.1
   exact ⟨this.2.1, hat'.1, hat'⟩
@@ -115,7 +136,7 @@ theorem X3_next_advances (o : Options) (bs : Bytes) (s s' : St) (t : Token) (hat
 `next()` always suffice (the budget `tokens` gives `run` is never exhausted). -/
 theorem X3_token_count (o : Options) (bs : Bytes) :
     (tokens o bs).1.length ≤ bs.length ∧ (tokens o bs).2 ≠ .bad .fuel := by
-  have hok := tokens_ok o bs
+  have hok := tokens_ok' o bs
   exact ⟨by have := hok.count; simpa [St.init, Cur.init] using this, hok.notBad _⟩
 
 /-- **X4 (limits).** For all option values, every token that is produced — accepted document or not — respects every limit:
@@ -124,7 +145,7 @@ text spans and attribute values ≤ `maxTextSpan`, and the number of tokens ≤ 
 tested before the token is handed out, so no consumer ever sees an offending token. -/
 theorem X4_limits (o : Options) (bs : Bytes) :
     (∀ t ∈ (tokens o bs).1, t.LimitsAll o) ∧ (o.maxTokens ≠ 0 → (tokens o bs).1.length ≤ o.maxTokens) := by
-  have hok := tokens_ok o bs
+  have hok := tokens_ok' o bs
   refine ⟨hok.limits, ?_⟩
   intro h
   have := hok.budget h
@@ -139,6 +160,12 @@ is the input with literal bytes copied, `&lt; &gt; &amp; &apos; &quot;` replaced
 UTF-8 encoding of the code point (`Dec` has no other rule, so nothing else is ever expanded). -/
 theorem X5_decode_sound (inp out : Bytes) (h : decodeEntities inp = .ok out) : Dec inp out :=
   decodeEntities_sound inp out h
+
+/-- **X5 (completeness).** Conversely, every string that is well formed in the sense of `Dec` — literal bytes, references to the five
+predefined entities, numeric references whose code point encodes — is decoded, to exactly the `Dec` image: `decodeEntities`
+succeeds *iff* the input is well formed, and its output is *the* decoded text. -/
+theorem X5_decode_complete (inp out : Bytes) : decodeEntities inp = .ok out ↔ Dec inp out :=
+  ⟨decodeEntities_sound inp out, decodeEntities_complete inp out⟩
 
 /-- non-vacuity: `&lt;&#65;` decodes to `<A` -/
 example : decodeEntities [0x26, 0x6C, 0x74, 0x3B, 0x26, 0x23, 0x36, 0x35, 0x3B] = .ok [0x3C, 0x41] := by decide
@@ -183,14 +210,33 @@ example : charRefCode [0x23, 0x78, 0x31, 0x30, 0x30, 0x30, 0x30, 0x30, 0x30, 0x3
 /-- `decodeEntities` terminates within its loop budget on every input. -/
 theorem X5_decode_terminates (inp : Bytes) : decodeEntities inp ≠ .fuel := decodeEntities_ne_fuel inp
 
-/-- **X6 (SAX).** With every callback registered, the sequence of callbacks `runSax` makes is the pull token list (one callback
-per token, in order, in the slot of the token's kind), and its result is "accepted". -/
-theorem X6_sax_is_token_list (o : Options) (bs : Bytes) :
-    (runSax o bs).1 = (tokens o bs).1 ∧
-    ((runSax o bs).2 = true ↔ ∃ t s, (tokens o bs).2 = .accepted t s) := by
+/-- **X6 (SAX dispatch).** For every subset `reg` of the nine `SaxCallbacks` members that hold a callable: the tokens handed to
+callbacks are the pull token list filtered by "the member this kind is dispatched to is registered", in the same order; each
+one went to the member of its own kind; a token whose member is empty is skipped (nothing is called, nothing thrown); and the
+result is `true` exactly when the document is accepted. -/
+theorem X6_sax_dispatch (reg : Registered) (o : Options) (bs : Bytes) :
+    (runSax reg o bs).1.map (·.2) = (tokens o bs).1.filter (fun t => reg.wants t.kind) ∧
+    (∀ e ∈ (runSax reg o bs).1, slotOf e.2.kind = some e.1 ∧ reg e.1 = true) ∧
+    ((runSax reg o bs).2 = true ↔ ∃ t s, (tokens o bs).2 = .accepted t s) := by
   unfold runSax
-  refine ⟨rfl, ?_⟩
+  refine ⟨(filterMap_saxDispatch reg _).1, (filterMap_saxDispatch reg _).2, ?_⟩
   cases h : (tokens o bs).2 <;> simp [h]
+
+/-- **X6 (SAX, everything registered).** With all nine members registered the callback sequence is the whole pull token list: every
+token `next()` returns has a member to go to (`Eof` and `Invalid`, the two kinds without one, are never returned). -/
+theorem X6_sax_is_token_list (o : Options) (bs : Bytes) :
+    (runSax (fun _ => true) o bs).1.map (·.2) = (tokens o bs).1 := by
+  rw [(X6_sax_dispatch _ o bs).1, List.filter_eq_self]
+  intro t ht
+  have := tokens_have_slot o bs t ht
+  unfold Registered.wants
+  cases hs : slotOf t.kind with
+  | none => rw [hs] at this; cases this
+  | some _ => rfl
+
+/-- non-vacuity: on `<a>x</a>` with only `onText` registered exactly the Text token is delivered -/
+example : ((runSax (fun sl => sl = .onText) {} docAXA).1.map fun e => (e.1, e.2.kind)) = [(.onText, .text)] := by
+  decide +kernel
 
 /-- **X6 (DOM).** When `DomBuilder::build` returns a document, walking it in document order gives exactly the pull token list
 with names copied and attribute values / text decoded (`<a/>` and `<a></a>` both read `open, close`; DOCTYPE tokens are skipped) —
@@ -203,7 +249,7 @@ theorem X6_dom_flatten (o : Options) (bs : Bytes) (ch : List Node) (h : domBuild
     rw [hf] at h
     simp only at h
     subst h
-    obtain ⟨fin, hfin⟩ := tokens_sm o bs
+    obtain ⟨fin, hfin⟩ := tokens_sm' o bs
     have := domFold_balanced bs (tokens o bs).1 [] fin {} hfin rfl
     rw [hf] at this
     exact this.elim
@@ -241,7 +287,7 @@ theorem X7_skeleton_faithful (o : Options) (ps : List Piece) (trail : Bytes) (vs
     (hspec : specRun o [] ps = some (vs, [])) :
     (tokens o (renderPieces ps ++ trail)).1.map (Token.view (renderPieces ps ++ trail)) = vs ∧
     ∃ t s, (tokens o (renderPieces ps ++ trail)).2 = .accepted t s :=
-  skeleton_faithful o ps trail vs hwf htrail hbud hspec
+  skeleton_faithful' o ps trail vs hwf htrail hbud hspec
 
 /-- non-vacuity: ` <a b = '1'><c /></a >` with a newline after it -/
 def exAttr : FAttr := { pre := [0x20], name := [0x62], ws1 := [0x20], ws2 := [0x20], quote := 0x27, value := [0x31] }
@@ -272,12 +318,31 @@ theorem X7_tree_faithful (o : Options) (es : List FElem) (trail : Bytes) (hwf : 
     (hh : heightList es ≤ o.maxDepth) (hbud : o.maxTokens = 0 ∨ (piecesList es).length < o.maxTokens) :
     (tokens o (renderForest es trail)).1.map (Token.view (renderForest es trail)) = eventsList 1 es ∧
     ∃ t s, (tokens o (renderForest es trail)).2 = .accepted t s :=
-  forest_faithful o es trail hwf htrail hh hbud
+  forest_faithful' o es trail hwf htrail hh hbud
 
 /-- non-vacuity: the tree `<a b = '1'><c /></a >` is the piece list of the example above -/
 example : piecesList [.node [0x20] [0x61] [exAttr] [] [.leaf [] [0x63] [] [0x20]] [] [0x20]] = exPieces ∧
     heightList [.node [0x20] [0x61] [exAttr] [] [.leaf [] [0x63] [] [0x20]] [] [0x20]] = 2 := by
   constructor <;> rfl
+
+/-- **X7 ∘ X6 (the DOM of a rendered forest is the forest).** If `DomBuilder::build` returns a document for the rendering of the
+element trees `es` (any formatting, within the limits), then walking that document in document order gives exactly the
+forest's own events with every attribute value entity-decoded (`viewsEvs (eventsList 1 es)`, a definition that never looks at the
+parser or the builder): same elements, same attribute names, decoded values, same order and nesting. -/
+theorem X7_dom_of_tree (o : Options) (es : List FElem) (trail : Bytes) (ch : List Node) (hwf : WFList o es)
+    (htrail : AllSpace trail) (hh : heightList es ≤ o.maxDepth)
+    (hbud : o.maxTokens = 0 ∨ (piecesList es).length < o.maxTokens)
+    (h : domBuild o (renderForest es trail) = .doc ch) :
+    viewsEvs (eventsList 1 es) = some (flattenList ch) := by
+  have h1 := X6_dom_flatten o _ ch h
+  have h2 := (forest_faithful' o es trail hwf htrail hh hbud).1
+  rw [← h2, ← h1]
+  symm
+  apply evsOf_views
+  intro t ht
+  have : t.view (renderForest es trail) ∈ eventsList 1 es := by
+    rw [← h2]; exact List.mem_map_of_mem ht
+  exact eventsList_tags 1 es _ this
 
 /-- **X7 (text keeps its leading white space — F29 repaired).** When the bytes after a piece of markup are white space followed
 by a non-space byte other than `<`, the Text token `next()` returns starts *at the white space* and runs up to the next `<`:
@@ -288,15 +353,25 @@ theorem X7_leading_space_kept (o : Options) (s : St) (w r : Bytes) (x : UInt8) (
     (hbud : o.maxTokens = 0 ∨ s.produced < o.maxTokens) (hlen : spanLen notLt (w ++ x :: r) ≤ o.maxText) :
     ∃ t s', next o s = .tok t s' ∧ t.kind = .text ∧ t.text = ⟨s.cur.pos, spanLen notLt (w ++ x :: r)⟩ ∧
       t.offset = s.cur.pos ∧ s'.cur.pos = s.cur.pos + spanLen notLt (w ++ x :: r) :=
-  next_text_keeps_leading_space o s w r x hw hx hlt hrest hbud hlen
+  next_text_keeps_leading_space' o s w r x hw hx hlt hrest hbud hlen
 
 /-- non-vacuity and the witness of F29: `<a>  x y </a>` reports the 6-byte text `  x y ` at offset 3 -/
 example : ((tokens {} [0x3C, 0x61, 0x3E, 0x20, 0x20, 0x78, 0x20, 0x79, 0x20, 0x3C, 0x2F, 0x61, 0x3E]).1.map
-    fun t => (t.kind, t.text)) = [(.startElement, ⟨0, 0⟩), (.text, ⟨3, 6⟩), (.endElement, ⟨0, 0⟩)] := by decide
+    fun t => (t.kind, t.text)) = [(.startElement, ⟨0, 0⟩), (.text, ⟨3, 6⟩), (.endElement, ⟨0, 0⟩)] := by decide +kernel
 
 /-- non-vacuity of X6 (DOM): `<a>x</a>` and `<a b="1"/>` build documents -/
 example : (match domBuild {} docAXA with | .doc [.elem _ [] [.text _]] => true | _ => false) = true ∧
-    (match domBuild {} docAttr with | .doc [.elem _ [_] []] => true | _ => false) = true := by decide
+    (match domBuild {} docAttr with | .doc [.elem _ [_] []] => true | _ => false) = true := by decide +kernel
+
+/-- **Qualified names.** `Token::splitQName` splits a name at its FIRST colon: a result `(k, l)` means `name = prefix ++ ":" ++ local`
+with `|prefix| = k`, `|local| = l` and no colon in the prefix; no result means the name has no colon; and every
+`prefix:local` with a colon-free prefix splits back into exactly those two parts. -/
+theorem N1_splitQName (name pre loc : Bytes) :
+    (∀ k l, splitQName name = some (k, l) →
+      ∃ p q, name = p ++ 0x3A :: q ∧ p.length = k ∧ q.length = l ∧ 0x3A ∉ p) ∧
+    (splitQName name = none → 0x3A ∉ name) ∧
+    (0x3A ∉ pre → splitQName (pre ++ 0x3A :: loc) = some (pre.length, loc.length)) :=
+  ⟨splitQName_some name, splitQName_none name, splitQName_roundtrip pre loc⟩
 
 /-- membership in the character classes the translator read off `isNameStart` / `isNameChar` -/
 def inClass (singles : List Nat) (ranges : List (Nat × Nat)) (n : Nat) : Bool :=
@@ -304,7 +379,8 @@ def inClass (singles : List Nat) (ranges : List (Nat × Nat)) (n : Nat) : Bool :
 
 /-- **Gen conformance.** What the translator regenerates from `xml.hpp` on every run is what the model uses: the `TokenKind`
 enumerators and their values, the `Options` defaults, the two option fields nobody reads, the predefined-entity chain, the
-white-space set, both name-character classes, the UTF-8 range bounds and the surrogate range, and every error message. -/
+white-space set, both name-character classes, the UTF-8 range bounds and the surrogate range, every error message, and every
+raw read of the input with the guard that dominates it. -/
 theorem gen_conformance :
     Gen.Xml.tokenKinds = Kind.all.map (fun k => (k.cxxName, k.toNat)) ∧
     (({} : Options).maxDepth, ({} : Options).maxAttrs, ({} : Options).maxName, ({} : Options).maxText, ({} : Options).maxTokens) =
@@ -317,8 +393,9 @@ theorem gen_conformance :
     (∀ n, n < 256 → isNameChar (UInt8.ofNat n) =
       (inClass Gen.Xml.nameStartSingles Gen.Xml.nameStartRanges n || inClass Gen.Xml.nameCharSingles Gen.Xml.nameCharRanges n)) ∧
     Gen.Xml.utf8Bounds = [0x7F, 0x7FF, 0xFFFF, 0x10FFFF] ∧ Gen.Xml.surrogateLo = 0xD800 ∧ Gen.Xml.surrogateHi = 0xDFFF ∧
-    Gen.Xml.errorMessages = ErrKind.all.map ErrKind.message := by
+    Gen.Xml.errorMessages = ErrKind.all.map ErrKind.message ∧
+    Gen.Xml.readSites = readSites := by
   refine ⟨by decide, by decide, by decide, by decide, by decide +kernel, by decide +kernel, by decide +kernel, by decide, by decide, by decide,
-    by decide⟩
+    by decide, by decide +kernel⟩
 
 end Iora.C14
